@@ -30,6 +30,10 @@ def register(COMPONENTS, g):
         return comp_generic("report", tier, seed, NPROC, ["-spok", os.path.join(BUILD, "spok")], "report", 900 if tier == "quick" else 3000)
     COMPONENTS["report"] = comp_report
 
+    def comp_vars(tier, seed):
+        return comp_generic("vars", tier, seed, NPROC, ["-spok", os.path.join(BUILD, "spok")], "vars", 900 if tier == "quick" else 3000)
+    COMPONENTS["vars"] = comp_vars
+
 
 def register_props(PROPS, g):
     hash_rule = ("real files under a private root: all permutations of small base lists (with duplicates and directories), "
@@ -87,6 +91,15 @@ def register_props(PROPS, g):
                     "nontrivial": ("distinct_nontrivial", "cases with at least two invocations"),
                     "rule": rp_rule, "assumptions": rp_assume,
                     "trusted_extra": ["encoding/json and the tabwriter are observed through decoding/parsing the real output, not modelled"]}
+    PROPS["C13"] = {"components": ["vars"], "oracle": ["C13"], "decode": None,
+                    "nontrivial": ("distinct_nontrivial", "cases with at least two variables"),
+                    "rule": "the built spok binary: random sets of 1-5 variables (string values over printable ASCII incl. $ { } without quotes, join(...) of awkward parts, exec(...) with padded/multi-line "
+                            "output or a failing status), names that also exist in the ambient environment or in .env, commands mixing literal text and {{.NAME}} references (incl. an undefined name) and one "
+                            "printf of $NAME per variable; the interpolated command text and the probe output are read from --json, values also from --vars",
+                    "assumptions": ["text/template is modelled only for actions of the form {{ .NAME }} with ASCII names; literal command text contains no '{'",
+                                    "the shell's treatment of the substituted text is not modelled: commands are generated so that it is inert (single-quoted) and the environment is read with printf '%s'",
+                                    "exec(...)'s standard output and status are inputs of the model"],
+                    "trusted_extra": ["mvdan.cc/sh (ListEnviron: last duplicate wins), godotenv and text/template are modelled for the fragment above, not verified"]}
     PROPS["C03"] = {"components": ["graph"], "oracle": ["C03"], "decode": None,
                     "nontrivial": ("distinct_nontrivial", "cases whose selected task set (closure of the request) has at least two tasks"),
                     "rule": "spokfiles generated from dependency graphs, parsed, loaded with file.New and run with SpokFile.Run and a recording runner; "
